@@ -176,8 +176,9 @@ class SmtLibSolver(Solver): # TODO this class is defined twice in pysmt. Here an
         formula = formula.simplify()
         sorts = self.to.get_types(formula, custom_only=True)
         for s in sorts:
-            if all(s not in ds for ds in self.declared_sorts):
-                self._declare_sort(s)
+            # A sort symbol is declared once, whatever its instances are
+            if all(s.decl not in ds for ds in self.declared_sorts):
+                self._declare_sort(s.decl)
         deps = formula.get_free_variables()
         for d in deps:
             if all(d not in dv for dv in self.declared_vars):
